@@ -22,6 +22,9 @@ var ctx = context.Background()
 var XNames = []string{"_s", "_t", "u", "$document", "$document.revid"}
 var RealXNames = []string{"_s", "_t", "u"}
 
+// SubPaths are the sub-document paths every observation reads back through GetSubDocRaw.
+var SubPaths = []string{"v", "a", "a.z", "nope"}
+
 type Config struct {
 	Disk       bool   `json:"disk"`
 	Root       string `json:"-"` // scratch directory for on-disk buckets
@@ -270,6 +273,7 @@ type DocObs struct {
 	Expiry   ReadObs             `json:"expiry"`
 	GWX      ReadObs             `json:"gwx"`
 	GX       ReadObs             `json:"gx"`
+	Sub      map[string]ReadObs  `json:"sub,omitempty"` // GetSubDocRaw for a few fixed paths
 	Backfill *EventObs           `json:"backfill"`
 }
 
@@ -314,6 +318,13 @@ func ObserveDoc(ca, cb *rosmar.Collection, key string) DocObs {
 	xs2, cas, err := ca.GetXattrs(ctx, key, XNames)
 	o.GX = readObs(err)
 	o.GX.Xattrs, o.GX.Cas = xmap(xs2), cas
+	o.Sub = map[string]ReadObs{}
+	for _, p := range SubPaths {
+		v, cas, err := cb.GetSubDocRaw(ctx, key, p)
+		r := readObs(err)
+		r.Body, r.Cas = v, cas
+		o.Sub[p] = r
+	}
 	return o
 }
 
